@@ -4,10 +4,10 @@ import json, os, subprocess
 V = os.path.dirname(os.path.dirname(os.path.abspath(__file__)))
 
 CHECKS = {
- 'C02': dict(technique='runtime monitoring: AstVm differential oracle (source vs raise(lower(source))) over seeded generated bodies, configs and states',
+ 'C02': dict(technique='runtime monitoring: two oracles over the executions of seeded generated bodies x configs x states: AstVm differential (source vs raise(lower(source))) and an independent interpreter of the emitted instruction stream (vlib/ivm.py) compared with the source-side trace',
              text='Exploration. Every generated body that compiles without warnings is executed from many register states and difficulties both as source and as the raised '
                   'lowered instruction stream; call logs (opcode, argument bits, real time) and all mentioned / non-scratch registers must agree. Quick: ~2k bodies, thorough: ~60k. Plus a directed workload: one register mentioned exactly once in a chosen syntactic context (17 contexts: nested difficulty switches, ternary branches, conditions, casts, ...) under register pressure.',
-             note='Trusts AstVm as the language semantics (the property does too). NaN-free floats; source-side VM panics are inconclusive. Held only on the programs/configs generated.',
+             note='Second oracle: the emitted RawInstrs are executed, without decompiling them, by an interpreter written from the mapfile semantics of the intrinsic kinds (vlib/ivm.py, arithmetic from the C11 model) and its call log / registers are compared with the source-side AstVm trace; this sees mistakes that encoder and decoder share (a hand-written seeded change of that kind, seeded/X02-shared-abi, is caught only by it). Runs using sin/cos are left to the first oracle (libm last-bit differences). Trusts AstVm as the language semantics (the property does too). NaN-free floats; source-side VM panics are inconclusive. Held only on the programs/configs generated.',
              design='3/C02'),
  'C05': dict(technique='runtime monitoring: invariant at a hook (register-allocator event log checked online against generator ground truth)',
              text='Exploration. The cfg(truth_verif) hook in assign_registers emits PoolInit/Alloc/Free events; every Alloc is checked against the registers the generator wrote into the '
@@ -35,10 +35,11 @@ CHECKS['C04'] = dict(technique='runtime monitoring: crash/abort/CPU/allocation m
                   'enormous outputs (65535x65535 dummy image) are not treated as hostile.',
              design='3/C04')
 CHECKS['C16'] = dict(technique='runtime monitoring: crash/abort/CPU/allocation monitors + Result-vs-diagnostics oracle over mutated binary inputs',
-             text='Exploration. Corpus binaries (30 bundled + compiled from generated sources for every format/game) are truncated, bit/byte/word/dword-mutated (extreme values at aligned positions), '
-                  'read cross-game, and fed to decompile (random option subsets and widths) and truanm extract in isolated workers; same monitors as C04 plus: an error must name the file, '
+             text='Exploration. Corpus binaries (30 bundled + compiled from generated sources for every format/game, including ANM files with embedded textures and TH10+ ECL) are truncated (stride and at every field boundary), '
+                  'field-targeted (an independent layout parser with read tracing yields every header field, count, offset, size, instruction header and bulk region of the file; one or two are set to boundary values, regions get damaged bytes), '
+                  'generically bit/byte/word/dword-mutated, read cross-game, and fed to decompile (random option subsets and widths), truanm extract and truanm compile -i FILE (image-source reader) in isolated workers; same monitors as C04 plus: an error must name the file, '
                   'peak allocation <= 64 MiB + 4096 x input size.',
-             note='Mutations are generic aligned-field mutations, not guided by coverage; held only on the mutants generated. dev profile (overflow checks) in quick, dev+release in thorough.',
+             note='Not coverage-guided in the registered check (a given seed is reproducible); libFuzzer targets over the same entry points (harness/fuzz: fz_bin, fz_text, fz_map) were run for hours during development and found nothing beyond what is fixed/listed. One known finding: extract materialises (w+offset_x) x (h+offset_y) output images. dev profile (overflow checks) in quick, dev+release in thorough.',
              design='3/C16')
 CHECKS['C01'] = dict(technique='runtime monitoring: round-trip oracle (bytes of compile(decompile(B)) vs B) over bundled and freshly compiled binaries, option subsets, widths, alias mapfiles',
              text='Exploration. B ranges over the 30 bundled binaries (all 32 option subsets each) and binaries truth just compiled from generated sources of every format/game; each is decompiled under sampled '
